@@ -138,6 +138,14 @@ type P20 struct {
 	Next P18 `json:"next"`
 }
 
+// P21 maps integer properties to narrow POINTER fields (absent-able, and still too small for some values the
+// schema may allow).
+type P21 struct {
+	A *int32  `json:"a"`
+	B *uint32 `json:"b"`
+	C *int8   `json:"c"`
+}
+
 type P9 struct {
 	FieldByName int64
 	Other       string `json:"other,omitempty"`
@@ -191,6 +199,8 @@ func buildStruct(name, id string, props map[string]*schema.PropertySchema) *sche
 		return schema.NewStructMappedObjectSchema[P17](id, props)
 	case "P19":
 		return schema.NewStructMappedObjectSchema[P19](id, props)
+	case "P21":
+		return schema.NewStructMappedObjectSchema[P21](id, props)
 	case "P20":
 		return schema.NewStructMappedObjectSchema[P20](id, props)
 	case "P10":
@@ -254,6 +264,8 @@ func buildTypedScope(rootStruct string, root *schema.ObjectSchema, others []*sch
 // ZeroStruct returns the zero value of the named pool type (for wrong-struct probes).
 func ZeroStruct(name string) any {
 	switch name {
+	case "P21":
+		return P21{}
 	case "P20":
 		return P20{}
 	case "P19":
